@@ -4,7 +4,6 @@ use crate::judge::*;
 use crate::machine::*;
 use crate::runner::{hash_pub, Ctx};
 use coset::cbor::value::Value;
-use coset::CborSerializable;
 use serde_json::{json, Value as J};
 
 fn prop_of(v: &J) -> String {
@@ -214,7 +213,15 @@ pub fn oneitem_one(ctx: &mut Ctx, v: &J, ty: &str, reg: &str, wire: &[u8], inner
         return;
     }
     // byte-level decoding = parse, then convert
-    let via = match std::panic::catch_unwind(std::panic::AssertUnwindSafe(|| Value::from_slice(wire).ok().map(|pv| decode_value(ty, reg, pv)))) {
+    // CBOR-parse with ciborium itself (not through the crate under test), exactly one item
+    let parse = |b: &[u8]| -> Option<Value> {
+        let mut sl: &[u8] = b;
+        match coset::cbor::de::from_reader::<Value, _>(&mut sl) {
+            Ok(v) if sl.is_empty() => Some(v),
+            _ => None,
+        }
+    };
+    let via = match std::panic::catch_unwind(std::panic::AssertUnwindSafe(|| parse(wire).map(|pv| decode_value(ty, reg, pv)))) {
         Ok(Some(Dec::Ok(_, j))) => json!({"kind": "ok", "val": j}),
         Ok(Some(Dec::Err(k))) => json!({"kind": "err", "err": k}),
         Ok(Some(Dec::Harness(m))) => json!({"kind": "harness", "err": m}),
